@@ -63,6 +63,7 @@ ARCH = {
     'gex2048ossh-b': {'banner': 'SSH-2.0-OpenSSH_8.0', 'kex': ['curve25519-sha256', 'diffie-hellman-group-exchange-sha256'], 'key': ['ssh-ed25519'], 'enc': ['aes128-ctr', '3des-cbc', 'aes256-cbc'], 'mac': ['hmac-sha2-256', 'hmac-md5', 'hmac-sha1-etm@openssh.com'], 'hostkeys': HK_ED, 'moduli': [], 'gex_style': 'openssh'},
     # Diffie-Hellman servers that treat bursts of connections differently (it shows when the rate check runs)
     'dh-open':      {'kex': ['diffie-hellman-group14-sha256', 'curve25519-sha256'], 'key': ['ssh-ed25519'], 'hostkeys': HK_ED, 'rate': 'normal'},
+    'dh-open-b':    {'kex': ['diffie-hellman-group16-sha512', 'curve25519-sha256'], 'key': ['ssh-ed25519'], 'enc': ['aes128-ctr', 'aes256-ctr'], 'hostkeys': HK_ED, 'rate': 'normal'},
     'dh-throttled': {'kex': ['diffie-hellman-group14-sha256', 'curve25519-sha256'], 'key': ['ssh-ed25519'], 'hostkeys': HK_ED, 'rate': 'stall'},
     'dh-maxstartups': {'kex': ['diffie-hellman-group16-sha512'], 'key': ['ssh-ed25519'], 'hostkeys': HK_ED, 'rate': 'mixed:4:greet:Exceeded MaxStartups\r\n'},
     'ssh1':       {'proto': 1},
@@ -309,6 +310,10 @@ def run(ctx):
     for i, (a, b) in enumerate(itertools.permutations(dh, 2)):
         for same in (True, False):
             cases.append({'archs': [a, b], 'mode': ('text-rate', 'json-rate')[i % 2], 'threads': 1, 'choices': [0], 'ports': [2200, 2201] if same else None, 'samehost': same})
+    # two servers that answer the rate check at once, scanned concurrently (nothing there waits on the clock)
+    for i in range(12 if ctx.quick else 120):
+        a, b = [('dh-open', 'dh-open-b'), ('dh-open-b', 'dh-open'), ('dh-open', 'dh-open')][i % 3]
+        cases.append({'archs': [a, b] + (['dh-open-b'] if i % 4 == 3 else []), 'mode': ('text-rate', 'json-rate')[i % 2], 'threads': 2 + (i % 4 == 3), 'choices': [rng.randint(0, 2) for _ in range(50)]})
     # more targets and worker threads than any fixed-size table of per-thread state would hold: 33-40 scans in their
     # probing phase at once (every worker is inside a scan before the first one finishes)
     wide_arch = ['rsa1024', 'gex1024', 'terrapin', 'smallca', 'clean', 'rsa2048']
